@@ -41,6 +41,8 @@ def gen_history(rng, maxlen):
         for h in list(live):
             ops.append(("DCLOSE", h))
         live = []
+    if rng.random() < 0.3:
+        ops.insert(0, ("RELPATHS",))
     return ops, live
 
 
@@ -48,6 +50,8 @@ def history_lines(dss, ops, probe):
     lines = []
     for ds in dss:
         lines += ds.lines()
+    if any(o[0] == "RELPATHS" for o in ops):
+        lines.append("RELPATHS on")         # data source names relative to the working directory
     lines.append("MISSINGFILE fmissing")
     qn = 0
     for o in ops:
@@ -57,7 +61,7 @@ def history_lines(dss, ops, probe):
             qn += 1
             # every third query asks for a value that occurs in no row (count 0)
             lines.append("DQUERY q%d %s %s" % (qn, o[1], core.enc_str(b'a="1"' if qn % 3 else b'a="no-such-value"')))
-        else:
+        elif o[0] == "DCLOSE":
             lines.append("DCLOSE %s" % o[1])
     for f in probe:
         lines.append("SQLPROBE p_%s %s" % (f, f))
@@ -107,6 +111,8 @@ def dynamic(rep, scratch, tier, seed):
     fixed = [[("DOPEN", "h1", "fa", "-"), ("DQUERY", "h1"), ("DCLOSE", "h1"), ("DOPEN", "h2", "fa", "-"), ("DQUERY", "h2"), ("DCLOSE", "h2")],
              [("DOPEN", "h1", "fa", "-"), ("DOPEN", "h2", "fa", "preload=true"), ("DQUERY", "h2"), ("DQUERY", "h1"), ("DCLOSE", "h1"), ("DCLOSE", "h2")],
              [("DOPEN", "h1", "fa", "-"), ("DOPEN", "h2", "fa", "-"), ("DCLOSE", "h1"), ("DQUERY", "h2"), ("DCLOSE", "h2"), ("DOPEN", "h3", "fa", "preload=false"), ("DQUERY", "h3"), ("DCLOSE", "h3")]]
+    fixed += [[("RELPATHS",), ("DOPEN", "h1", "fa", "-"), ("DOPEN", "h2", "fb", "-"), ("DQUERY", "h1"), ("DQUERY", "h2"), ("DCLOSE", "h1"), ("DQUERY", "h2"), ("DCLOSE", "h2"),
+               ("DOPEN", "h3", "fb", "preload=true"), ("DOPEN", "h4", "fa", "preload=true"), ("DQUERY", "h4"), ("DQUERY", "h3"), ("DCLOSE", "h3"), ("DCLOSE", "h4")]]
     for ops in fixed:
         hist.append((ops, []))
     for _ in range(60 if tier == "quick" else 4000):
@@ -134,6 +140,8 @@ def dynamic(rep, scratch, tier, seed):
         def wf(ops):
             live, used = set(), set()
             for o in ops:
+                if o[0] == "RELPATHS":
+                    continue
                 if o[0] == "DOPEN":
                     if o[1] in used:
                         return False
@@ -249,7 +257,7 @@ def run(rep, scratch, tier, seed, replay=None):
                 break
         if nbad == 0:
             rep.violation("obligation", "the generated lock obligation of C17 no longer checks (coq/obligations/ObC17.v); histories and concurrent first use found no failing schedule",
-                          {"broken": "C17_locks / C17_single_section", "coqc_output": ob["output"][-2500:]}, no_input=True)
+                          {"broken": "C17_locks / C17_single_section", "unknown_to_policy": ob.get("unknown_to_policy", ""), "coqc_output": ob["output"][-2500:]}, no_input=True)
     rep.coverage.update({
         "evaluations": nh + 8, "distinct_nontrivial": len(set(tuple(o[0] for o in h[0]) for h in hist)),
         "rule": "well-formed histories of 3..14 driver.Conn-level operations (Open / query / Close) over 2 index files x option strings %s (+ missing file, + invalid cache size), each in a fresh process, compared with DriverSM.d_run (result class per operation; a query must return the count of its own file); database/sql scenarios: reopen after the last close, the same file under two option strings, pool sizes 1,2,4, first use by 2 and 16 goroutines; after the last close a non-blocking flock must succeed. Non-trivial = distinct operation-kind sequences." % OPTS,
